@@ -276,6 +276,10 @@ func (self *visitorUserNode) OnInt64(v int64, n json.Number) error {
 		if err = self.p.WriteInt32(convertData); err != nil {
 			return err
 		}
+	case proto.EnumKind:
+		if err = self.p.WriteEnum(proto.EnumNumber(v)); err != nil {
+			return err
+		}
 	case proto.Sint32Kind:
 		convertData := int32(v)
 		if err = self.p.WriteSint32(convertData); err != nil {
